@@ -172,6 +172,14 @@ int cif_loop_set_category(cif_loop_tp *loop, const UChar *category) {
     cif_container_tp *container = loop->container;
     UChar *category_temp;
 
+    if ((container != NULL) && (container->cif != NULL)) {
+        /*
+         * Create the needed prepared statement, or prepare the existing one for re-use, exiting this function with an
+         * error on failure.  This is done before anything is allocated, because PREPARE_STMT returns directly.
+         */
+        PREPARE_STMT(container->cif, set_loop_category, SET_CATEGORY_SQL);
+    }
+
     if (category == NULL) {
         category_temp = NULL;
     } else if (*category == 0) {
@@ -213,13 +221,7 @@ int cif_loop_set_category(cif_loop_tp *loop, const UChar *category) {
             FAILURE_HANDLING;
             STEP_HANDLING;
 
-            /*
-             * Create any needed prepared statements, or prepare the existing one(s)
-             * for re-use, exiting this function with an error on failure.
-             */
-            PREPARE_STMT(cif, set_loop_category, SET_CATEGORY_SQL);
-
-            /* set the category */
+            /* set the category (the statement was prepared on entry) */
             if ((sqlite3_bind_int64(cif->set_loop_category_stmt, 2, container->id) == SQLITE_OK)
                     && (sqlite3_bind_int64(cif->set_loop_category_stmt, 3, loop->loop_num) == SQLITE_OK)
                     && (sqlite3_bind_text16(cif->set_loop_category_stmt, 1, category_temp, -1, SQLITE_STATIC)
